@@ -10,12 +10,12 @@ cd $WT && go build -ldflags=-checklinkname=0 -o /tmp/confirm-golua-clean . || ex
 for n in "$@"; do
   d=/verif/seeded/$n
   [ -f $d/demo.lua ] || { echo "$n: no demo.lua, skipped"; continue; }
-  /tmp/confirm-golua-clean $d/demo.lua >/dev/null 2>&1; c=$?
+  (cd $d && /tmp/confirm-golua-clean demo.lua >/dev/null 2>&1); c=$?
   git -C $WT checkout -q -- . ; git -C $WT apply $d/patch.diff || { echo "$n: patch does not apply"; continue; }
   go build ./... 2>/dev/null >/dev/null; b=$?
   go build -ldflags=-checklinkname=0 -o /tmp/confirm-golua-mut . ; b2=$?
   go test -vet=off -count=1 $PK >/tmp/confirm-test.log 2>&1; t=$?
-  /tmp/confirm-golua-mut $d/demo.lua >/dev/null 2>&1; m=$?
+  (cd $d && /tmp/confirm-golua-mut demo.lua >/dev/null 2>&1); m=$?
   echo "$n: clean-demo-exit=$c build=$b/$b2 pinned-packages-exit=$t mutated-demo-exit=$m $([ $c = 0 ] && [ $b2 = 0 ] && [ $t = 0 ] && [ $m != 0 ] && echo CONFIRMED || echo NOT-CONFIRMED)"
   git -C $WT checkout -q -- .
 done
